@@ -44,6 +44,10 @@ func genC08Parallel(d *Draw) Case {
 	c := &ProcCase{Prog: prog, Buf: d.N(17), Hold: 1 + d.N(2), LogProps: true, Scripts: scripts}
 	c.Picks = drawPicks(d, 24)
 	c.Meta = map[string]int{"parallel": k}
+	if d.N(3) == 2 {
+		// a client that reads the instance's variables on every trace while the answers are being stored
+		c.Stress = &Stress{Readers: 1 + d.N(2)}
+	}
 	return c
 }
 
@@ -135,6 +139,9 @@ func genC08(d *Draw) Case {
 	c := &ProcCase{Prog: prog, Buf: d.N(17), Hold: d.N(3), LogProps: true}
 	c.Scripts = map[string][]AnswerSpec{"T1": script}
 	c.Picks = drawPicks(d, 16)
+	if d.N(3) == 2 {
+		c.Stress = &Stress{Readers: 1 + d.N(2)}
+	}
 	return c
 }
 
@@ -244,6 +251,7 @@ func checkC08(cc Case, r *simrt.Result) *Outcome {
 	o.Nontrivial = r.Switches > 0
 	fc := c.env.FaultCounts()
 	probe(o, "parallel-result-writers", c.Meta["parallel"] > 0)
+	probe(o, "client-reads-variables-while-answers-are-stored", c.Stress != nil && c.Stress.Readers > 0)
 	probe(o, "duplicate-answer", fc["duplicate-answer"] > 0)
 	probe(o, "concurrent-answers", fc["concurrent-answers"] > 0)
 	probe(o, "answers-of-different-kinds", fc["answers-of-different-kinds"] > 0)
